@@ -377,7 +377,7 @@ def main(ctx):
     # ---- V (b) + (c)
     sw = xl + sweep_events(ctx, 80 if quick else 1500, len(xl))
     ro = routes_events(ctx, 500 if quick else 8000, len(sw))
-    rej = ctx.validate_events('Trace_C03', 'Trace.cfg', sw + ro, chunk=600)
+    rej = ctx.validate_events('Trace_C03', 'Trace.cfg', sw + ro, chunk=250)
     for ev in sw + ro:
         if ev['id'] in rej:
             clause, which = rej[ev['id']]
